@@ -88,3 +88,11 @@ package reactor
 //@   after selrecv(input)#1: transit = ite(opOk, transit + 1, transit); myTransit = ite(opOk, 1, 0)
 //@   after selsend(output)#1: transit = transit - 1; myTransit = 0; outCnt = outCnt + 1
 //@   loop for invariant [idle] myTransit == 0 && r == globalReactor && r.output != r.input && r.output != r.tokenPool
+//@   ensures [only-when-stopped] closed(done(r.ctx)) // C12: every accepted seed reaches the output as long as a consumer reads it - the forwarding loop ends only when the reactor is stopped
+
+// Start (its once.Do closure): establishes the invariant with an empty reactor.
+//@ func Start$1
+//@   property C12
+//@   requires [config] *maxTokens >= 1
+//@   requires [ghost-init] pendIns == 0 && pendFin == 0 && pendSend == 0 && transit == 0 && outCnt == 0
+//@   ensures [init] globalReactor != nil && G() && len(globalReactor.tokenPool) == 0 && cap(globalReactor.tokenPool) == *maxTokens && cap(globalReactor.input) == *maxTokens // C12: never more seeds in flight than the configured number of tokens
